@@ -50,6 +50,8 @@ type c04Case struct {
 	// Prior: an earlier, complete run on the same source object (other geometry, often the same number of channels),
 	// judged like any run; the main run follows after a new Configure.
 	Prior *c04Case `json:"prior,omitempty"`
+	// LagMs (C17 workloads only): the consumer dawdles so long after each of the first blocks - block assembly falls behind the reader
+	LagMs int `json:"lag_ms,omitempty"`
 }
 
 func (c *c04Case) valid() bool {
@@ -438,6 +440,9 @@ loop:
 			}
 			blocks = append(blocks, blk{b, mixServed})
 			framesGot += len(b.segments[0].rawData)
+			if c.LagMs > 0 && c.LagMs <= 400 && len(blocks) <= 4 {
+				time.Sleep(time.Duration(c.LagMs) * time.Millisecond)
+			}
 			ch = ls.getNextBlock()
 		case <-card.idle:
 			card.mu.Lock()
